@@ -82,6 +82,11 @@ class CompileWorld(GWorld):
                 else:
                     out.extend(TV(E.idx(s, k), 0, False) for k in range(n))
             return out
+        if name == "casadi.depends_on":
+            a, b = args
+            if not isinstance(a, TV) or not isinstance(b, TV):
+                raise it.err(node, "depends_on of non-symbolic values")
+            return bool(M.symbols(a.t) & M.symbols(b.t))
         return GWorld.call_ext(self, it, name, args, kwargs, node)
 
     def intercept_call(self, it, f, args, kwargs, node):
